@@ -9,6 +9,10 @@ Extracted (by regular expressions over the source text, after stripping comments
   * src/control_connection.cpp          - the line-length limit passed to read_line
   * src/data_connection.cpp             - the sizes of the block buffers of recv and send
   * include/ftp/detail/ascii_*stream.hpp - default sizes of the converters' internal buffers
+  * src/client.cpp                      - (into Generated/ClientFacts.lean) the member functions whose body is exactly
+                                          `make_command(<verb>[, <arg>])` + `process_command(command)` are TRANSLATED into
+                                          programs of the model's monad; per member function the command literals it names
+                                          and the reply codes it compares with, in source order; the four decisive codes
 A construct the patterns do not recognise is an error (the check reports it as a broken tie), never a silent default.
 """
 import os, re, sys
@@ -16,6 +20,7 @@ import os, re, sys
 ROOT = os.path.dirname(os.path.dirname(os.path.abspath(__file__)))
 REPO = os.environ.get("VERIF_REPO", "/repo")
 OUT = os.path.join(ROOT, "lean", "Ftp", "Generated", "SourceFacts.lean")
+OUT_CLIENT = os.path.join(ROOT, "lean", "Ftp", "Generated", "ClientFacts.lean")
 
 class ExtractError(Exception):
     pass
@@ -43,6 +48,106 @@ def body_of(text, signature, what):
             if depth == 0:
                 return text[j:k + 1]
     raise ExtractError("%s: unbalanced braces" % what)
+
+
+def member_functions(text, cls):
+    """[(name, signature text, body text)] of every `cls::name(...) {...}` definition, in source order"""
+    out = []
+    for m in re.finditer(r"\b%s::(~?\w+)\s*\(" % re.escape(cls), text):
+        i = m.end(); depth = 1
+        while depth and i < len(text):
+            if text[i] == "(": depth += 1
+            elif text[i] == ")": depth -= 1
+            i += 1
+        sig = text[m.end():i - 1]
+        j = i
+        while j < len(text) and (text[j].isspace() or text.startswith("const", j) and not (text[j + 5].isalnum() or text[j + 5] == "_")):
+            j += 5 if text.startswith("const", j) else 1
+        if j < len(text) and text[j] == ":":          # constructor initialiser list
+            j = text.index("{", j)
+        if j >= len(text) or text[j] != "{":
+            continue                                   # a call or a declaration, not a definition
+        depth = 0
+        for e in range(j, len(text)):
+            if text[e] == "{": depth += 1
+            elif text[e] == "}":
+                depth -= 1
+                if depth == 0:
+                    out.append((m.group(1), sig, text[j:e + 1])); break
+    return out
+
+SIMPLE = re.compile(r'\{\s*(?:const\s+)?(?:std::string|auto)\s+(\w+)\s*=\s*make_command\s*\(\s*"([A-Z]+)"\s*(?:,\s*("[^"]*"|\w+)\s*)?\)\s*;\s*'
+                    r'(?:return\s+process_command\s*\(\s*\1\s*\)\s*;|'
+                    r'(?:const\s+)?(?:reply|auto)\s+(\w+)\s*=\s*process_command\s*\(\s*\1\s*\)\s*;\s*return\s+(file_size_reply|file_modified_time_reply)\s*\(\s*\4\s*\)\s*;)\s*\}\s*$')
+
+def client_facts():
+    """returns dict: simple [(fn, verb, argkind, argname, wrapper)], literals [(fn, [lit])], codes [(fn, [int])], and the decisive codes"""
+    cl = src("src/client.cpp")
+    fns = member_functions(cl, "client")
+    if len(fns) < 40:
+        raise ExtractError("client.cpp: only %d member function definitions recognised" % len(fns))
+    simple = []; lits = {}; codes = {}; order = []
+    for name, sig, body in fns:
+        m = SIMPLE.match(body)
+        if m:
+            verb, arg, wrapper = m.group(2), m.group(3), m.group(5)
+            if arg is None: kind, an = "none", ""
+            elif arg.startswith('"'): kind, an = "lit", arg[1:-1]
+            else:
+                pm = re.search(r"([^,]*)\b%s\s*$" % re.escape(arg), [p for p in sig.split(",") if re.search(r"\b%s\s*$" % re.escape(arg), p.strip())][0].strip()) if any(re.search(r"\b%s\s*$" % re.escape(arg), p.strip()) for p in sig.split(",")) else None
+                if pm is None:
+                    raise ExtractError("client::%s: argument %s of make_command is not a parameter" % (name, arg))
+                kind, an = ("opt" if "optional" in pm.group(1) else "req"), arg
+            simple.append((name, verb, kind, an, wrapper or "reply"))
+        l = re.findall(r'"([A-Z][A-Z 0-9]*)"', body)
+        c = [int(x) for x in re.findall(r"get_code\s*\(\s*\)\s*==\s*(\d+)", body)]
+        other = re.findall(r"get_code\s*\(\s*\)\s*(?:!=|<=|>=|<|>)\s*\d+|\d+\s*(?:==|!=|<=|>=|<|>)\s*\w+\.get_code", body)
+        if other:
+            raise ExtractError("client::%s: a reply-code comparison of an unrecognised form: %s" % (name, other[0]))
+        if name in lits:
+            if lits[name] != l or codes[name] != c:     # overloads must agree (the & / && pairs do)
+                raise ExtractError("client::%s: overloads name different command literals / codes" % name)
+        else:
+            order.append(name); lits[name] = l; codes[name] = c
+    def the_code(fn):
+        if len(codes.get(fn, [])) != 1:
+            raise ExtractError("client::%s: expected exactly one comparison get_code() == <n>, found %s" % (fn, codes.get(fn)))
+        return codes[fn][0]
+    return {"simple": simple, "literals": [(n, lits[n]) for n in order if lits[n]], "codes": [(n, codes[n]) for n in order if codes[n]],
+            "greetingPreliminary": the_code("connect"), "renameToAfter": the_code("rename"),
+            "loginPassAfter": the_code("process_login"), "abortSecondReplyAfter": the_code("process_abort")}
+
+def render_client(cf, error):
+    L = ["/-", "  GENERATED by tools/gen_source_facts.py from src/client.cpp on every run of a check - do not edit.",
+         "  (1) every member function of ftp::client whose body is exactly `std::string command = make_command(VERB[, ARG]);` followed by",
+         "      `return process_command(command);` (or the same with the reply wrapped into a typed reply), TRANSLATED into the model's monad;",
+         "  (2) per member function, the command literals its body names and the reply codes it compares with `==`, in source order;",
+         "  (3) the four decisive codes.  What the translator could not read is absent.", "-/", "import Ftp.Model.Client", "namespace Ftp.Generated", "open Ftp Ftp.Client", ""]
+    if cf is None:
+        L.append("-- not extracted: %s" % error.replace("\n", " ")[:300])
+    else:
+        for fn, verb, kind, an, wrapper in cf["simple"]:
+            L.append("/-- `client::%s`: `make_command(\"%s\"%s)`, `process_command(command)`%s -/" % (fn, verb,
+                     "" if kind == "none" else (', "%s"' % an if kind == "lit" else ", " + an), "" if wrapper == "reply" else ", result wrapped in `%s`" % wrapper))
+            if kind == "none":
+                L += ["def %s : M Reply := do" % fn, "  let command ← mkCmd \"%s\" none" % verb]
+            elif kind == "lit":
+                L += ["def %s : M Reply := do" % fn, "  let command ← mkCmd \"%s\" (some (str \"%s\"))" % (verb, an)]
+            elif kind == "req":
+                L += ["def %s (%s : Bytes) : M Reply := do" % (fn, an), "  let command ← mkCmd \"%s\" (some %s)" % (verb, an)]
+            else:
+                L += ["def %s (%s : Option Bytes) : M Reply := do" % (fn, an), "  let command ← mkCmd \"%s\" %s" % (verb, an)]
+            L += ["  processCommand command", ""]
+        L.append("/-- typed wrappers: which simple calls hand their reply to which typed-reply constructor -/")
+        L.append("def typedWrappers : List (String × String) :=\n  [" + ", ".join('("%s", "%s")' % (fn, w) for fn, _, _, _, w in cf["simple"] if w != "reply") + "]\n")
+        L.append("/-- command literals named in the body of each member function of ftp::client, in source order -/")
+        L.append("def commandLiterals : List (String × List String) :=\n  [" + ",\n   ".join('("%s", [%s])' % (n, ", ".join('"%s"' % x for x in l)) for n, l in cf["literals"]) + "]\n")
+        L.append("/-- reply codes compared with `get_code() == n` in the body of each member function, in source order -/")
+        L.append("def comparedCodes : List (String × List Nat) :=\n  [" + ", ".join('("%s", [%s])' % (n, ", ".join(str(x) for x in c)) for n, c in cf["codes"]) + "]\n")
+        for k in ("greetingPreliminary", "renameToAfter", "loginPassAfter", "abortSecondReplyAfter"):
+            L.append("def %s : Nat := %d" % (k, cf[k]))
+    L += ["", "end Ftp.Generated", ""]
+    return "\n".join(L)
 
 def extract():
     """returns (facts, errors): every fact is extracted on its own; a fact whose pattern no longer matches is left out of the
@@ -97,7 +202,7 @@ def render(f, errors):
 
 # which property theorems depend on which fact (for the error text of the audit)
 USERS = {"verbs": ["C19"], "positiveBelow": ["C15"], "negativeFrom": ["C15"], "intermediateFrom": ["C15"], "intermediateBelow": ["C15"],
-         "ctlMaxLine": ["C01", "C08"], "sendBlock": ["C04", "C12"], "recvBlock": ["C03", "C12"], "asciiInBuf": ["C05"], "asciiOutHint": ["C05"]}
+         "ctlMaxLine": ["C01", "C08"], "sendBlock": ["C04", "C12"], "recvBlock": ["C03", "C12"], "asciiInBuf": ["C05"], "asciiOutHint": ["C05"], "clientFacts": ["C10", "C02"]}
 
 def generate():
     """returns (changed, facts, errors)"""
@@ -108,7 +213,17 @@ def generate():
     if old != text:
         tmp = OUT + ".%d" % os.getpid()
         open(tmp, "w").write(text); os.replace(tmp, OUT)
-    return old != text, f, errors
+    try:
+        cf, cerr = client_facts(), None
+    except (ExtractError, OSError, ValueError, IndexError) as e:
+        cf, cerr = None, str(e)
+        errors["clientFacts"] = cerr
+    ctext = render_client(cf, cerr or "")
+    cold = open(OUT_CLIENT).read() if os.path.exists(OUT_CLIENT) else None
+    if cold != ctext:
+        tmp = OUT_CLIENT + ".%d" % os.getpid()
+        open(tmp, "w").write(ctext); os.replace(tmp, OUT_CLIENT)
+    return old != text or cold != ctext, f, errors
 
 def problems_for(pid, errors):
     return ["translator tools/gen_source_facts.py could not read `%s` from the source: %s" % (k, e) for k, e in sorted(errors.items()) if pid in USERS.get(k, [])]
